@@ -407,6 +407,33 @@ def match_known(prop_id, f, known):
 
 
 # ---------------------------------------------------------------------------
+# generated corpus fonts named in a case travel with the replay file
+
+
+def _gen_specs_of(case):
+    import re
+
+    from . import corpus
+
+    out = {}
+    for fid in sorted(set(re.findall(r"gen:\d+:\d+", json.dumps(case)))):
+        try:
+            out[fid] = to_jsonable(corpus.gen_spec(fid))
+        except Exception:
+            pass
+    return out
+
+
+def _register_gen_specs(rec):
+    gs = rec.get("gen_specs") or {}
+    if gs:
+        from . import corpus
+
+        for fid, spec in gs.items():
+            corpus.register_generated(fid, from_jsonable(spec))
+
+
+# ---------------------------------------------------------------------------
 # driver
 
 
@@ -417,6 +444,7 @@ def _replay_job(mod, job):
     try:
         with open(job["path"]) as fh:
             rec = json.load(fh)
+        _register_gen_specs(rec)
         with time_limit(180):
             fails = mod.replay(from_jsonable(rec["case"]))
     except CaseTimeout:
@@ -521,7 +549,7 @@ def run(mod, tier, seed, nproc=None):
                 if not os.path.exists(kp):
                     os.makedirs(rdir, exist_ok=True)
                     with open(kp, "w") as fh:
-                        json.dump(dict(property=mod.ID, bucket=key, seed=seed, tier=tier, known_finding=e["id"], **f), fh, indent=1, sort_keys=True)
+                        json.dump(dict(property=mod.ID, bucket=key, seed=seed, tier=tier, known_finding=e["id"], gen_specs=_gen_specs_of(f["case"]), **f), fh, indent=1, sort_keys=True)
             else:
                 unknown.append(f)
         if not unknown:
@@ -538,7 +566,7 @@ def run(mod, tier, seed, nproc=None):
         path = os.path.join(rdir, "%s.json" % hashlib.sha1(key.encode()).hexdigest()[:12])
         with open(path, "w") as fh:
             json.dump(
-                dict(property=mod.ID, bucket=key, seed=seed, tier=tier, count=total._bucket_counts.get(key, len(fs)), **f),
+                dict(property=mod.ID, bucket=key, seed=seed, tier=tier, count=total._bucket_counts.get(key, len(fs)), gen_specs=_gen_specs_of(f["case"]), **f),
                 fh,
                 indent=1,
                 sort_keys=True,
@@ -607,6 +635,7 @@ def replay(mod, path):
     bootstrap()
     with open(path) as fh:
         rec = json.load(fh)
+    _register_gen_specs(rec)
     case = from_jsonable(rec["case"])
     fails = mod.replay(case)
     known = load_known()
